@@ -1,6 +1,7 @@
 """C19 - Collectors of different threads are independent; thread teardown is safe."""
 from engine.graph import Super, fmt, strip, U_KINDS
 from engine import tables, witness
+from engine.facts import norm_path
 from .common import *
 from . import c07
 
@@ -103,6 +104,7 @@ def _panic_depends_on(P, f, local):
     """Branches of `f` on a value derived from `local` (flow-insensitive taint over assignments and call results) one of
     whose targets cannot reach `return`: the failure of the access would be turned into a panic."""
     taint = {local}
+    defaulted = {}       # local -> the constant an access failure turns into (`.unwrap_or(<const>)`): only that value is the failure case
     changed = True
     while changed:
         changed = False
@@ -110,9 +112,17 @@ def _panic_depends_on(P, f, local):
             for st in b["stmts"]:
                 if st["k"] == "assign" and st["place"]["l"] not in taint and any(pl["l"] in taint for pl in places_of_rv(st["rv"])):
                     taint.add(st["place"]["l"]); changed = True
+                    rv = st["rv"]
+                    if rv["k"] == "use" and rv["op"]["k"] in ("copy", "move") and not rv["op"]["place"]["p"] and rv["op"]["place"]["l"] in defaulted and not st["place"]["p"]:
+                        defaulted[st["place"]["l"]] = defaulted[rv["op"]["place"]["l"]]
+                    if rv["k"] == "un" and rv["op"] == "Not" and rv["a"]["k"] in ("copy", "move") and not rv["a"]["place"]["p"] and rv["a"]["place"]["l"] in defaulted and not st["place"]["p"] and defaulted[rv["a"]["place"]["l"]] in (0, 1):
+                        defaulted[st["place"]["l"]] = 1 - defaulted[rv["a"]["place"]["l"]]
             t = b["term"]
             if t["k"] == "call" and t.get("dest") and t["dest"]["l"] not in taint and any(a["k"] in ("copy", "move") and a["place"]["l"] in taint for a in t["args"]):
                 taint.add(t["dest"]["l"]); changed = True
+                cp = norm_path(t["callee"].get("path", "")) if not t["callee"].get("indirect") else ""
+                if cp.endswith("Result::<T, E>::unwrap_or") and len(t["args"]) == 2 and t["args"][1]["k"] == "const" and isinstance(t["args"][1].get("val"), int) and not t["dest"]["p"]:
+                    defaulted[t["dest"]["l"]] = t["args"][1]["val"]
     # blocks from which `return` is reachable along normal (non-unwind) edges
     def nsucc(t):
         k = t["k"]
@@ -166,6 +176,13 @@ def _panic_depends_on(P, f, local):
         if op.get("k") in ("copy", "move") and op["place"]["l"] in taint:
             if t["k"] == "assert":
                 out.append("bb%d assert" % bi)
+                continue
+            if t["k"] == "switch" and not op["place"]["p"] and op["place"]["l"] in defaulted:
+                # only the default value stands for a failed access: its edge must return; the other edges test the closure's own result
+                c_ = defaulted[op["place"]["l"]]
+                hit = [tb for v_, tb in t["targets"] if v_ == c_] or [t["otherwise"]]
+                if any(tb not in can for tb in hit):
+                    out.append("bb%d: the edge taken when the access failed (value %s) never returns" % (bi, c_))
                 continue
             dead = sorted({tgt for tgt in nsucc(t) if tgt not in can})
             if dead and bi in can:
